@@ -5,7 +5,7 @@ import parso
 from parso import cache as pcache
 
 LEVEL = 'translation_validation'
-VFILES = ['Lines.v', 'Tok.v', 'TokShift.v', 'TokResume.v', 'Engine.v', 'Model.v', 'Properties/C04.v']
+VFILES = ['Lines.v', 'Tok.v', 'TokShift.v', 'TokResume.v', 'Engine.v', 'EngineRestart.v', 'Model.v', 'Properties/C04.v']
 TECHNIQUE = ('Coq simulation proof that the tokenizer model commutes with a shift of the start line (the fact behind moving copied nodes by a line offset) '
              '+ translation validation of edit histories: the tree returned by the incremental parser is compared, step by step, with the fresh parse of the '
              'Gallina pipeline model (Lines -> Tokenizer -> Engine, extracted) and with the implementation\'s own fresh parse')
@@ -19,7 +19,7 @@ EXPLANATION = ('Proved for all inputs on the tokenizer model (Properties/C04.v, 
                'the model pipeline parse_text, whose agreement with a fresh implementation parse is itself a correspondence stream of this check; every '
                'history step compares type/value/prefix/position of every node, parent links, get_code and the used-names index.')
 LEVEL_TEXT = EXPLANATION
-ASSUMPTIONS = ['of the locality facts that justify node copying the tokenizer ones are proved (tok_shift, tok_resume_points); that DiffParser only restarts at clean boundaries, statement locality of the engine and the _NodesTree bookkeeping are not, and the copy logic is decided by validation of histories']
+ASSUMPTIONS = ['of the locality facts that justify node copying the tokenizer ones (tok_shift, tok_resume_points) and the independence of the engine from what the root frame already holds (engine_restart) are proved; that DiffParser only restarts at clean boundaries, statement locality of the engine and the _NodesTree bookkeeping are not, and the copy logic is decided by validation of histories']
 
 FRAGS = [' ', '\t', '\n', '\r', '\f', '\x0b', '\x1c', '\x1d', '\x1e', '\x85', '\u2028', '\u2029', '\n\f\n', '# c\x85d', '\f\n   ', 'f"', 'F"""', "fr'", "RF'''", '"', '"""', "'", "'''", ';', ' some_random_word ', '\\', '#',
          'def ', 'class ', 'if ', 'else', 'elif ', 'for ', 'while ', 'try', 'except', 'finally', 'with ', 'return ', 'lambda ', 'import ',
